@@ -957,6 +957,14 @@ func (p *parser) typ() string {
 		k := p.typ()
 		p.expect("]")
 		return t.v + "[" + k + "]"
+	case t.k == "id" && t.v == "struct":
+		if p.isOp("{}") {
+			p.p++
+		} else {
+			p.expect("{")
+			p.expect("}")
+		}
+		return "struct{}"
 	case t.k == "id" && t.v == "interface":
 		if p.isOp("{}") {
 			p.p++
